@@ -237,3 +237,23 @@ A(V("c04-woff2-head-before-loca", "C04", "ttLib/woff2.py", "            self._no
 A(V("c02-svg-signed-offset", ["C01", "C02"], "ttLib/tables/S_V_G_.py", '">HHLL", doc.startGlyphID', '">HHlL", doc.startGlyphID', "F1w"))
 A(V("c02-head-xmin-unsigned", ["C02", "C04"], "ttLib/tables/_h_e_a_d.py", "xMin:               h", "xMin:               H", "SPEC-LAY"))
 A(V("c02-hhea-advance-signed", ["C02", "C04"], "ttLib/tables/_h_h_e_a.py", "advanceWidthMax:        H", "advanceWidthMax:        h", "SPEC-LAY"))
+# --- rules added after seed round 2 -------------------------------------------------
+A(V("c16-os2-save-after-pack", "C16", "ttLib/tables/O_S_2f_2.py", "        self.panose = sstruct.pack(panoseFormat, self.panose)\n", "        self.panose = sstruct.pack(panoseFormat, self.panose)\n        panose = self.panose\n", "SAVE-REST"))
+A(V("c16-time-localtime", "C16", "misc/timeTools.py", "return asctime(time.gmtime(max(0, value + epoch_diff)))", "return asctime(time.localtime(max(0, value + epoch_diff)))", "F13z"))
+A(V("c16-time-mktime", "C16", "misc/timeTools.py", "    return int(t.timestamp()) - epoch_diff", "    return int(time.mktime(t.timetuple())) - epoch_diff", "F13z"))
+A(V("c07-lost-sort", "C07", "subset/__init__.py", "        usedIndices = sorted(usedIndices)\n", "        usedIndices = sorted(usedIndices)\n        usedIndices = None\n", None, expect=0, count=2))
+A(V("c17-skip-empty-cff", "C17", "ttLib/scaleUpem.py", "                if op == \"vsindex\":\n                    continue", "                if op == \"vsindex\" or not args:\n                    continue", "SKIP"))
+A(V("c11-ctx-end-lookup", "C11", "feaLib/builder.py", "        self.cur_lookup_name_ = None\n        self.cur_lookup_ = None\n", "        self.cur_lookup_name_ = None\n", "FEA-ctx", count=1))
+A(V("c11-ctx-conditional-reset", "C11", "feaLib/builder.py", "        assert lookup_name in self.named_lookups_, lookup_name\n        self.cur_lookup_ = None\n", "        assert lookup_name in self.named_lookups_, lookup_name\n        if self.cur_lookup_name_:\n            self.cur_lookup_ = None\n", "FEA-ctx"))
+A(V("c11-idmap-sort-by-key", "C11", "feaLib/builder.py", "self.markFilterSets_.items(), key=lambda item: item[1]", "self.markFilterSets_.items(), key=lambda item: sorted(item[0])", "IDMAP"))
+A(V("c11-idmap-benign-itemgetter", "C11", "feaLib/builder.py", "self.markFilterSets_.items(), key=lambda item: item[1]", "self.markFilterSets_.items(), key=lambda kv: kv[1]", None, expect=0))
+A(V("c13-curpt-first-point", "C13", "pens/cu2quPen.py", "                    prev_on_curve = sub_points[-1][0]", "                    prev_on_curve = sub_points[0][0]", "CURPT"))
+A(V("c20-touch-wb", "C20", "ttx.py", 'open(output, "a").close()', 'open(output, "wb").close()', "F16t"))
+A(V("c12-offsize-3", ["C12", "C01"], "cffLib/__init__.py", "    elif largestOffset < 0x1000000:", "    elif largestOffset <= 0x1000000:", "F5-offsize"))
+A(V("c12-offsize-benign-le", ["C12", "C01"], "cffLib/__init__.py", "    if largestOffset < 0x100:", "    if largestOffset <= 0xFF:", None, expect=0))
+A(V("c12-rebias-gsubr-local", "C12", "cffLib/transforms.py", "gsubrs._used.index(p[i - 1] + gsubrs._old_bias) - gsubrs._new_bias", "gsubrs._used.index(p[i - 1] + gsubrs._old_bias) - subrs._new_bias", "F5-rebias"))
+A(V("c12-rebias-old-from-used", "C12", "cffLib/transforms.py", "subrs._old_bias = calcSubrBias(subrs)", "subrs._old_bias = calcSubrBias(subrs._used)", "F5-rebias"))
+A(V("c19-vgate-drop-labels", "C19", "designspaceLib/__init__.py", "            or self.documentObject.locationLabels\n", "", "VGATE"))
+A(V("c08-iup-alias", "C08", "ttLib/ttGlyphSet.py", "                    origCoords, control = glyfTable._getCoordinatesAndControls(\n                        self.name, hMetrics, vMetrics\n                    )", "                    origCoords, control = coordinates, _", "IUP-ref"))
+A(V("c10-cache-conditional-reset", "C10", "varLib/models.py", "        self.reverseMapping = [locations.index(l) for l in self.locations]\n        self._subModels = {}\n        return new_list", "        self.reverseMapping = [locations.index(l) for l in self.locations]\n        if not new_list:\n            self._subModels = {}\n        return new_list", "CACHE-INV"))
+A(V("c02-fvar-not-all-benign", "C02", "ttLib/tables/_f_v_a_r.py", "        includePostScriptNames = any(\n            instance.postscriptNameID != 0xFFFF for instance in self.instances\n        )", "        includePostScriptNames = not all(\n            instance.postscriptNameID == 0xFFFF for instance in self.instances\n        )", None, expect=0))
